@@ -52,6 +52,19 @@ def gen_cases(rng, tier):
                               'spec': {'eager': eager, 'L': L, 'taps': taps, 'silent': silent},
                               'tags': {'eager': eager, 'n': L, 'taps': taps, 'mode': 'statement', 'list': variant}})
                 j += 1
+    # one tap-dance bound to two positions (through an alias): every position counts its own taps
+    tj = 0
+    for eager in (False, True):
+        for T in (30, 100):
+            for pat in ('a b b', 'a b b b', 'a a b b', 'b a a', 'a b a b'):
+                cfg = '(defsrc a s d)\n(defalias td (%s %d (x y z)))\n(deflayer l0 @td @td 1)' % ('tap-dance-eager' if eager else 'tap-dance', T)
+                h = ['t5']
+                for k in pat.split():
+                    code = 30 if k == 'a' else 31
+                    h += ['p0,%d' % code, 't%d' % rng.randint(1, 4), 'r0,%d' % code, 't%d' % rng.randint(2, max(3, T // 4))]
+                h += ['t%d' % (T + 60)]
+                cases.append({'id': 'c17-two-%d' % tj, 'cfg': cfg, 'hist': h, 'sub': 'lsim', 'tags': {'eager': eager, 'mode': 'same-list-on-two-keys', 'pattern': pat}})
+                tj += 1
     return cases
 
 
